@@ -384,3 +384,52 @@ class SubCtx:
 
     def analysed(self, fn):
         self.parent.analysed(fn)
+
+
+# ---- E-IDX: every dimension of an engine table is indexed through one enumeration -----------------------------------------
+def enum_index_confusions(prog, fids=None):
+    """[(Func, subscript node, array, dimension, expected enum, enum found)]: subscripts whose index has an enumeration type other
+    than the one all the other subscripts of that array dimension use (a PieceKind where the table is laid out by Piece reads
+    another piece's entry). Plain integers (loop counters) are not judged. `fids`: restrict the reports to these functions;
+    the expected type is always taken over the whole program."""
+    import collections
+    cache = prog.__dict__.setdefault('_eidx', None)
+    if cache is None:
+        use = collections.defaultdict(collections.Counter)
+        sites = []
+
+        def strip_imp(n):
+            while n is not None and n['k'] in ('ImplicitCastExpr', 'ParenExpr') and kids(n):
+                n = kids(n)[-1]
+            return n
+        for f in prog.funcs.values():
+            if f.body is None or not f.name.startswith('engine::'):
+                continue
+            for n in f.all_nodes():
+                if n['k'] != 'ArraySubscriptExpr':
+                    continue
+                b, i = strip_imp(kids(n)[0]), strip_imp(kids(n)[1])
+                depth = 0
+                while b is not None and b['k'] == 'ArraySubscriptExpr':
+                    depth += 1
+                    b = strip_imp(kids(b)[0])
+                r = (b or {}).get('ref') or {}
+                if r.get('k') not in ('Field', 'Global', 'StaticMember'):
+                    continue
+                t = (i.get('ct') or i.get('t') or '').replace('const ', '')
+                if t in prog.enums:
+                    use[(r['n'], depth)][t] += 1
+                    sites.append((f, n, r['n'], depth, t))
+        cache = prog.__dict__['_eidx'] = (use, sites)
+    use, sites = cache
+    out = []
+    for f, n, arr, depth, t in sites:
+        c = use[(arr, depth)]
+        if len(c) < 2:
+            continue
+        best = c.most_common()
+        if best[0][1] == best[1][1]:
+            raise AnalysisBroken('E-IDX: %s dimension %d is indexed through %s equally often' % (arr, depth, dict(c)))
+        if t != best[0][0] and (fids is None or f.id in fids):
+            out.append((f, n, arr, depth, best[0][0], t))
+    return out
